@@ -116,11 +116,29 @@ def doc_features(doc: dict) -> dict:
         "mutual_refs": mutual,
         "non_error_non_2xx_status": any(c.isdigit() and not (200 <= int(c) < 300) and not (400 <= int(c) < 600) for c in statuses),
         "zero_operations": nops == 0,
+        "enum_default_unsafe": any(isinstance(sc, dict) and "enum" in sc and isinstance(sc.get("default"), str)
+                                   and not re.fullmatch(r"[A-Za-z][A-Za-z0-9 _-]*", sc["default"]) for sc in _all_schemas(doc)),
         "stream_with_other_2xx": stream_other,
         "tag_spelling_variants": any(len(v) > 1 for v in tagsets.values()),
         "dup_params": dup_params,
         "shadowing_props": bool(prop_names & {"field", "date", "datetime", "dataclass", "List", "Any", "Dict"}),
     }
+
+
+def _all_schemas(doc):
+    out = []
+
+    def walk(x):
+        if isinstance(x, dict):
+            out.append(x)
+            for v in x.values():
+                walk(v)
+        elif isinstance(x, list):
+            for v in x:
+                walk(v)
+    walk(doc.get("components", {}))
+    walk(doc.get("paths", {}))
+    return out
 
 
 def classify(case: dict, res: dict) -> list[tuple[str | None, str, dict]]:
@@ -146,7 +164,9 @@ def classify(case: dict, res: dict) -> list[tuple[str | None, str, dict]]:
         probs.append(("foreign", f, "imports a module outside stdlib/httpx/cattrs/the package"))
     for kind, where, msg in probs:
         fid = None
-        if "'return' with value in async generator" in msg and feats["stream_with_other_2xx"]:
+        if kind == "import" and feats["enum_default_unsafe"] and ("has no attribute" in msg or "invalid" in msg.lower() or "SyntaxError" in msg or "NameError" in msg):
+            fid = "F53"
+        elif "'return' with value in async generator" in msg and feats["stream_with_other_2xx"]:
             fid = "F35"
         elif "duplicate argument" in msg and "mock_client" in where + msg and feats["tag_spelling_variants"]:
             fid = "F23"
@@ -171,7 +191,7 @@ def make_cases(ctx, r) -> list[dict]:
     cases = []
     n_main = ctx.budget(48, 480)
     for i in range(n_main):
-        o = gs.Opts(mainstream=True, unions=(i % 4 == 0), streaming=(i % 5 == 0), tag_variants=False, multi_tags=(i % 3 == 0),
+        o = gs.Opts(mainstream=True, defaults=(i % 2 == 0), colliding_names=(i % 3 == 2), unions=(i % 4 == 0), streaming=(i % 5 == 0), tag_variants=False, multi_tags=(i % 3 == 0),
                     multi_content=(i % 6 == 0), cookie_params=(i % 7 == 0), array_params=(i % 4 == 1))
         rr = rng(f"C01:main:{i}")
         pkg, core = LAYOUTS[i % len(LAYOUTS)]
@@ -179,7 +199,7 @@ def make_cases(ctx, r) -> list[dict]:
                       "strategy": STRATEGIES[i % 3]})
     n_wide = ctx.budget(32, 320)
     for i in range(n_wide):
-        o = gs.Opts(mainstream=False, cycles=(i % 2 == 0), prefix_names=(i % 3 == 0), unions=True, redirects=(i % 4 == 0),
+        o = gs.Opts(mainstream=False, cycles=(i % 2 == 0), prefix_names=(i % 3 == 0), unions=True, redirects=(i % 4 == 0), defaults=(i % 2 == 1),
                     no_ops=(i % 8 == 0), streaming=(i % 4 == 1), multi_content=True, cookie_params=True, multi_tags=True, tag_variants=True,
                     dup_opids=True, formats=("date-time", "date", "byte", "uuid", "time"))
         rr = rng(f"C01:wide:{i}")
@@ -217,6 +237,10 @@ def witness_doc(fid: str) -> dict:
     if fid == "F23":
         base["paths"]["/x"]["get"]["tags"] = ["Data Sources"]
         base["paths"]["/y"] = {"get": {"operationId": "getY", "tags": ["data_sources"], "responses": {"200": {"description": "ok"}}}}
+    if fid == "F53":
+        base["components"]["schemas"] = {"Level": {"type": "string", "enum": ["N/A", "low"], "default": "N/A"},
+                                         "Rec": {"type": "object", "properties": {"level": {"$ref": "#/components/schemas/Level"}}}}
+        base["paths"]["/x"]["get"]["responses"]["200"]["content"] = {"application/json": {"schema": {"$ref": "#/components/schemas/Rec"}}}
     if fid == "F5":
         base["components"]["schemas"] = {"Rec": {"type": "object", "properties": {"field": {"type": "string"}, "tags": {"type": "array", "items": {"type": "string"}}}}}
         base["paths"]["/x"]["get"]["responses"]["200"]["content"] = {"application/json": {"schema": {"$ref": "#/components/schemas/Rec"}}}
